@@ -137,6 +137,10 @@ class Driver:
                 continue
             if a.get("tag") is not None and rec[4].get("tag") != a["tag"]:
                 continue
+            if a.get("op") is not None and rec[4].get("op") != a["op"]:
+                continue
+            if a.get("path_has") is not None and a["path_has"] not in (rec[4].get("path") or ""):
+                continue
             t["count"] += 1
             if t["count"] >= a.get("n", 1):
                 t["done"] = True
